@@ -367,8 +367,6 @@ def frame_scan(ctx):
     # inside Branch: which methods write them
     writers = set()
     tree = ast.parse(open(os.path.join(REPO, FILE), encoding='utf-8').read())
-    for cls_stack, node in _walk_with_class(tree, with_func=True):
-        pass
     for n in ast.walk(tree):
         if isinstance(n, ast.ClassDef) and n.name == 'Branch':
             for m in n.body:
@@ -377,18 +375,46 @@ def frame_scan(ctx):
                         if isinstance(sub, ast.Attribute) and sub.attr in PRIVATE and isinstance(sub.ctx, ast.Store): writers.add(m.name)
                         if isinstance(sub, ast.Call) and isinstance(sub.func, ast.Attribute) and sub.func.attr in MUTATORS and isinstance(sub.func.value, ast.Attribute) and sub.func.value.attr in PRIVATE:
                             writers.add(m.name)
-    ctx.add(enum_ob('C06.frame.writers', writers <= {'__init__', 'copy', 'append'}, clause='inside Branch only __init__, copy and append write the fields',
-                    writers=sorted(writers), cex=dict(writers=sorted(writers))))
+    # a private helper that writes the fields is fine when it can only run as part of __init__ / copy / append: every call of it
+    # anywhere in the package sits in one of those three (or in another such helper), and it is never taken as a value
+    allowed = {'__init__', 'copy', 'append'}
+    changed = True
+    while changed:
+        changed = False
+        for w in sorted(writers - allowed):
+            if not (w.startswith('_') and not w.startswith('__')): continue
+            callers = set(); escapes = False
+            for dp, dn, fn in os.walk(root):
+                for f in fn:
+                    if not f.endswith('.py'): continue
+                    path = os.path.join(dp, f); rel = os.path.relpath(path, REPO)
+                    t2 = ast.parse(open(path, encoding='utf-8').read())
+                    for cls_stack, func_stack, node in _walk_with_class(t2, with_func=True):
+                        if isinstance(node, ast.Attribute) and node.attr == w:
+                            in_branch = rel == FILE and 'Branch' in cls_stack
+                            is_call_on_self = isinstance(node.value, ast.Name) and node.value.id in ('self', 'b', 'branch')
+                            if in_branch and func_stack: callers.add(func_stack[0])
+                            else: escapes = True
+            called_as_function = True      # conservative: any mention outside a call position counts as a call site of its function
+            if not escapes and callers <= allowed: allowed.add(w); changed = True      # (no caller at all: dead code)
+    ctx.add(enum_ob('C06.frame.writers', writers <= allowed, clause='inside Branch only __init__, copy and append (and private helpers reachable only from them) write the fields',
+                    writers=sorted(writers), allowed=sorted(allowed), cex=dict(writers=sorted(writers), allowed=sorted(allowed))))
 
 def _walk_with_class(tree, with_func=False):
-    def rec(node, stack):
+    """yield (class stack, node) -- or (class stack, [outermost enclosing method name of the innermost class], node) with
+    with_func -- for every node"""
+    def rec(node, stack, funcs):
         for ch in ast.iter_child_nodes(node):
             if isinstance(ch, ast.ClassDef):
-                yield from rec(ch, stack + [ch.name])
+                yield from rec(ch, stack + [ch.name], [])
+            elif isinstance(ch, (ast.FunctionDef, ast.AsyncFunctionDef)):
+                f2 = funcs if funcs else [ch.name]
+                yield (stack, f2, ch) if with_func else (stack, ch)
+                yield from rec(ch, stack, f2)
             else:
-                yield stack, ch
-                yield from rec(ch, stack)
-    yield from rec(tree, [])
+                yield (stack, funcs, ch) if with_func else (stack, ch)
+                yield from rec(ch, stack, funcs)
+    yield from rec(tree, [], [])
 
 # ---------------------------------------------------------------- witness use
 
